@@ -18,6 +18,7 @@ var trackedTypes = map[string][]string{
 	".":               {"Vaxis", "writer"},
 	"ansi":            {"Parser"},
 	"widgets/spinner": {"Model"},
+	"widgets/term":    {"Model"},
 }
 
 // fieldsOf collects, for every tracked struct type declared in the files, the set of plain data fields.
